@@ -224,7 +224,7 @@ def sweep(rep, rng, reps, deadline):
 def run(rep: Report):
     big_weight_cases(rep, Rng(rep.seed * 1000003 + 1919))
     scalar_weight_cases(rep, Rng(rep.seed * 1000003 + 1920))
-    sweep(rep, Rng(rep.seed * 1000003 + 19), 1 if rep.tier == "quick" else 8, time.time() + budget(rep.tier, 40, 400))
+    sweep(rep, Rng(rep.seed * 1000003 + 19), 3 if rep.tier == "quick" else 8, time.time() + budget(rep.tier, 40, 400))
 
 
 def search(rep: Report):
